@@ -910,8 +910,11 @@ PROPS = {
         "assumptions": ["user_entries are not part of write_model (known finding): histories of the property add the user lexicon after the last reload"],
     },
     "C16": {
-        "modules": ["Vibrato.Props.C16"],
-        "theorems": ["Vibrato.C16.trunc_sum_bound", "Vibrato.C16.entry_close", "Vibrato.C16.bigram_matrix_close",
+        "modules": ["Vibrato.Props.C16", "Vibrato.Props.C07sat"],
+        "theorems": [# the criterion behind the flag SAT (when the dual connector is judged like the raw one / when a dual-only
+                     # excess may be attributed to the known finding F28)
+                     "Vibrato.C07.presum_fits_of_bound", "Vibrato.C07.presum_fits_le8", "Vibrato.C07.dual_eq_raw_of_bound",
+                     "Vibrato.C16.trunc_sum_bound", "Vibrato.C16.entry_close", "Vibrato.C16.bigram_matrix_close",
                      "Vibrato.C16.bigram_matrix_close_eos", "Vibrato.C16.bigram_matrix_close_bos", "Vibrato.C16.dims_agree"],
         "streams": with_cli(train_streams("C16", 40, 2000), {"train": train_classifier("C16")}, (), 12, 400),
         "rule": "same set-ups as C14; the emitted bigram files are compiled with the raw and the dual connector and every cost is "
@@ -961,8 +964,9 @@ PROPS = {
                         "fewer than 65536 bigram.cost lines (or the explicit scorer-build hypothesis), i32 bound on the per-pair sum"],
     },
     "C07": {
-        "modules": ["Vibrato.Props.C07"],
-        "theorems": ["Vibrato.C07.find_base_terminates", "Vibrato.C07.build_slot_invariant", "Vibrato.C07.retrieve_build",
+        "modules": ["Vibrato.Props.C07", "Vibrato.Props.C07sat"],
+        "theorems": ["Vibrato.C07.presum_fits_of_bound", "Vibrato.C07.presum_fits_le8", "Vibrato.C07.dual_eq_raw_of_bound",
+                     "Vibrato.C07.find_base_terminates", "Vibrato.C07.build_slot_invariant", "Vibrato.C07.retrieve_build",
                      "Vibrato.C07.retrieve_build_ofEntries", "Vibrato.C07.retrieve_invalid_left",
                      "Vibrato.C07.raw_cost_eq_sum", "Vibrato.C07.raw_cost_eq_sum_fixed", "Vibrato.C07.dual_cost_eq",
                      "Vibrato.C07.dual_eq_sum_of_fits", "Vibrato.C07.dual_eq_raw_of_fits",
